@@ -1137,7 +1137,7 @@ FUNCS = {
         ('T', 'N', ('L', 'X'))),
     2: ('os.path.splitext (as used by find_plugin)', impl_splitext, 'S'),
     3: ('pybtex.io._open/open_raw/open_unicode (scripted opener)', impl_open,
-        ('T', ('L', 'X'), 'X', 'X', 'X', 'X', 'B', 'X', 'X')),
+        ('T', 'X', 'X', 'X', 'X', 'X', 'X', 'X', 'X')),      # not shrunk: a shorter script or another isfile is another scenario
     4: ('BaseParser.parse_string/parse_bytes/parse_file/parse_files (probe plug-in)', impl_reader, ('T', 'B', 'X', 'X', 'X')),
     5: ('BaseWriter.to_string/to_bytes/write_file (probe plug-in)', impl_writer, ('T', 'B', 'X', 'X', 'S', 'X')),
     6: ('pybtex.database parse_string/parse_bytes/parse_file/to_string/to_bytes/to_file (probe plug-ins in the registry)', impl_module,
@@ -1305,6 +1305,8 @@ def oracle_open(arg, out, with_log=True):
             return 'a file object was not passed through'
         return None
     name = S(target[1])
+    if log is not None and len(log) > len(script):
+        return None                     # more open() calls than scripted outcomes: not a scenario of the matrix
     used = script[:len(log)] if log is not None else script
     if any(o[0] == 2 for o in used):
         return None                     # a foreign exception of open() itself is not an open *failure* in the sense of the property
@@ -1325,12 +1327,24 @@ def oracle_open(arg, out, with_log=True):
                     return 'output location unwritable, TEXMFOUTPUT set and usable, but no fallback: %s' % res
                 if log is not None and (len(log) < 2 or S(log[1][0]) != posixpath.join(S(tex[0]), name)):
                     return 'fallback did not open TEXMFOUTPUT/<file>'
+                if log is not None and log[1][1:] != log[0][1:]:
+                    return ('the TEXMFOUTPUT fallback is not the same open() at another place: first attempt (mode, encoding) = %s, fallback = %s '
+                            '(the file would not receive the bytes of the configured encoding)' % (log[0][1:], log[1][1:]))
             else:
                 if res[0] != 1:
                     return 'nothing could be opened but no pybtex error: %s' % res
     else:
-        if log is not None and len(log) == 1:
-            o = script[0]
+        o = script[0]
+        if isfile and kp is not None:
+            # the named file exists: it is the file to open; failing to open it is a pybtex error naming it,
+            # whatever kpsewhich might find elsewhere
+            if o[0] == 0 and res != [0, o[1]]:
+                return 'the existing file %r was opened but another file (or none) was returned: %s' % (name, res)
+            if o[0] == 1 and res[0] != 1:
+                return 'the existing file %r could not be opened (%s) but no pybtex error was raised: got %s%s' % (
+                    name, S(o[1][0]) if o[1] else 'OSError', res,
+                    ' -- opened instead: %r' % S(log[-1][0]) if log and len(log) > 1 else '')
+        elif log is not None and len(log) == 1:
             if o[0] == 0 and res != [0, o[1]]:
                 return 'the opened file was not returned'
             if o[0] == 1 and res[0] != 1:
@@ -1773,8 +1787,8 @@ def gen_open(tier, rng):
                 for (mode, which, enc, name) in (('r', 0, [], 'x.bib'), ('rb', 1, [], 'sub/x.bib'), ('r', 2, ['latin-1'], 'x.bib'), ('r', 2, [], '/nonexistent-c17/x.bib'), ('a', 0, [], 'x.bib'), ('x', 1, [], 'x.bib')):
                     if name.startswith('/') and isfile:
                         continue
-                    if tier == 'quick' and isfile and kp is not kps[0]:
-                        continue          # kpsewhich is not consulted for an existing file
+                    # (existing file x every kpsewhich outcome stays in the quick tier: kpsewhich must NOT be
+                    #  consulted there -- an existing file that cannot be opened is an error, not a reason to look elsewhere)
                     yield ('open_read_matrix', 3, [[o1, H2], [1, name], mode, enc, [], isfile, kp, which])
     # file objects are passed through
     for mode in ('r', 'w', 'wb'):
